@@ -110,13 +110,14 @@ class Conn:
         w = self.world
         if self.dropped or self.closed_by_relay is not None:
             raise w.ns.web.falcon.WebSocketDisconnected()
+        # the entry is recorded when ws_send is *called* (R2: a frame is judged by when its send starts)
+        self.transcript.append(("send", w.tick(), text))
         if self.stall:
             fut = w.loop.create_future()
             self.stalled.append(fut)
             await fut
             if self.dropped:
                 raise w.ns.web.falcon.WebSocketDisconnected()
-        self.transcript.append(("send", w.tick(), text))
 
     async def close(self, code=1000):
         self.transcript.append(("close", self.world.tick(), code))
@@ -142,7 +143,7 @@ class Conn:
         self.stalled.clear()
 
     def unstall(self):
-        self.stall = False
+        """release the sends that are currently blocked (later sends block again: a slow client)"""
         for f in self.stalled:
             if not f.done():
                 f.set_result(None)
